@@ -363,6 +363,481 @@ theorem history_live (s : Store) (serial : Nat) (dflt : Int) (cur : Snap) (v : O
   unfold history
   simp [hne, habs, hobj]
 
+/-! ## Histories over selected steps × parameters; parameters without a dataset in early snapshots
+
+`Model/SnapStore.lean` (`PState`, `writeP`, `histLoop`, `dbHistory`, `dbiHistory`, `blockHistoryVal`) transcribes
+`_writeParams` + `toWriteToDB` (a dataset only for parameters whose class-level `assigned` flag is set) and
+`Database.getHistories` / `DatabaseInterface.getHistory` / `HistoryTrackerInterface.getBlockHistoryVal`
+with explicit `timeSteps` and `params`. -/
+
+/-- value a history holds for parameter `p` at step `k` -/
+def lookupH (h : Hist) (p : Nat) (k : Nat × Nat) : Option Int := ((h.lookup p).getD []).lookup k
+
+private theorem lookup_map_other {β} (t : List (Nat × β)) (p p' : Nat) (f : β → β) (hp : p' ≠ p) :
+    (t.map (fun e => if e.1 == p then (p, f e.2) else e)).lookup p' = t.lookup p' := by
+  induction t with
+  | nil => rfl
+  | cons e t ih =>
+    obtain ⟨ek, ev⟩ := e
+    simp only [List.map_cons]
+    by_cases he : ek = p
+    · subst he
+      have hk : (p' == ek) = false := by simpa using hp
+      simp only [beq_self_eq_true, if_true, List.lookup_cons, hk, ih]
+    · have : (ek == p) = false := by simpa using he
+      simp only [this, Bool.false_eq_true, if_false, List.lookup_cons, ih]
+
+private theorem lookup_map_same {β} (t : List (Nat × β)) (p : Nat) (f : β → β) :
+    (t.map (fun e => if e.1 == p then (p, f e.2) else e)).lookup p = (t.lookup p).map f := by
+  induction t with
+  | nil => rfl
+  | cons e t ih =>
+    obtain ⟨ek, ev⟩ := e
+    simp only [List.map_cons]
+    by_cases he : ek = p
+    · subst he
+      simp only [beq_self_eq_true, if_true, List.lookup_cons, Option.map_some]
+    · have h1 : (ek == p) = false := by simpa using he
+      have h2 : (p == ek) = false := by simpa using (fun h => he h.symm)
+      simp only [h1, Bool.false_eq_true, if_false, List.lookup_cons, h2, ih]
+
+private theorem any_key_lookup {β} (t : List (Nat × β)) (p : Nat) :
+    t.any (fun e => e.1 == p) = (t.lookup p).isSome := by
+  induction t with
+  | nil => rfl
+  | cons e t ih =>
+    obtain ⟨ek, ev⟩ := e
+    by_cases he : ek = p
+    · subst he; simp [List.lookup_cons]
+    · have h1 : (ek == p) = false := by simpa using he
+      have h2 : (p == ek) = false := by simpa using (fun h => he h.symm)
+      simp only [List.any_cons, h1, Bool.false_or, ih, List.lookup_cons, h2]
+
+private theorem lookup_setHist (h : Hist) (p p' : Nat) (k : Nat × Nat) (v : Int) :
+    (setHist h p k v).lookup p' = if p' = p then some (odSet ((h.lookup p).getD []) k v) else h.lookup p' := by
+  unfold setHist
+  rw [any_key_lookup]
+  by_cases hp : p' = p
+  · subst hp
+    rw [if_pos rfl]
+    cases hl : h.lookup p' with
+    | some d =>
+      simp only [Option.isSome_some, if_true, Option.getD_some]
+      rw [lookup_map_same h p' (fun d => odSet d k v), hl]
+      rfl
+    | none =>
+      simp only [Option.isSome_none, Bool.false_eq_true, if_false, Option.getD_none]
+      rw [List.lookup_append, hl]
+      simp [List.lookup_cons]
+  · rw [if_neg hp]
+    cases hl : (h.lookup p).isSome with
+    | true =>
+      simp only [if_true]
+      exact lookup_map_other h p p' (fun d => odSet d k v) hp
+    | false =>
+      simp only [Bool.false_eq_true, if_false]
+      have : (p' == p) = false := by simpa using hp
+      rw [List.lookup_append]
+      simp [List.lookup_cons, this]
+
+theorem lookupH_setHist (h : Hist) (p p' : Nat) (k k' : Nat × Nat) (v : Int) :
+    lookupH (setHist h p k v) p' k' = if p' = p ∧ k' = k then some v else lookupH h p' k' := by
+  unfold lookupH
+  rw [lookup_setHist]
+  by_cases hp : p' = p
+  · subst hp
+    simp only [if_true, Option.getD_some, true_and, lookup_odSet]
+  · simp [hp]
+
+theorem lookupH_fold (params : List Nat) (k : Nat × Nat) (f : Nat → Int) (acc : Hist) (p' : Nat) (k' : Nat × Nat) :
+    lookupH (params.foldl (fun a p => setHist a p k (f p)) acc) p' k'
+      = if p' ∈ params ∧ k' = k then some (f p') else lookupH acc p' k' := by
+  induction params generalizing acc with
+  | nil => simp
+  | cons q rest ih =>
+    simp only [List.foldl_cons]
+    rw [ih, lookupH_setHist]
+    by_cases h1 : p' ∈ rest <;> by_cases h2 : k' = k <;> by_cases h3 : p' = q <;> simp [h1, h2, h3]
+
+/-- what the snapshot of step `k` holds for the object with serial number `serial` and parameter `p`:
+the dataset's entry at the object's row, or the default when the snapshot has no dataset for `p`;
+`none` if no snapshot of that step exists or it does not contain the object -/
+def valAt (groups : List PSnap) (serial : Nat) (dflt : Nat → Int) (k : Nat × Nat) (p : Nat) : Option Int :=
+  match groups.find? (fun g => (g.cycle, g.node) == k) with
+  | some g => (g.layout.idxOf? serial).map (fun idx => storedValue g idx p dflt)
+  | none => none
+
+theorem histLoop_lookup (groups : List PSnap) (serial : Nat) (params : List Nat) (dflt : Nat → Int)
+    (steps : List (Nat × Nat)) (acc h : Hist) (hh : histLoop groups serial params dflt steps acc = some h)
+    (p' : Nat) (k' : Nat × Nat) :
+    lookupH h p' k' = if p' ∈ params ∧ k' ∈ steps ∧ (valAt groups serial dflt k' p').isSome
+      then valAt groups serial dflt k' p' else lookupH acc p' k' := by
+  induction steps generalizing acc with
+  | nil => simp [histLoop] at hh; subst hh; simp
+  | cons step rest ih =>
+    unfold histLoop at hh
+    cases hf : groups.find? (fun g => (g.cycle, g.node) == step) with
+    | none => rw [hf] at hh; simp at hh
+    | some g =>
+      rw [hf] at hh
+      simp only [] at hh
+      have hkey : (g.cycle, g.node) = step := by
+        have := List.find?_some hf
+        simpa using this
+      cases hi : g.layout.idxOf? serial with
+      | none =>
+        rw [hi] at hh
+        simp only [] at hh
+        rw [ih acc hh]
+        have hv : ∀ q, valAt groups serial dflt step q = none := by
+          intro q; unfold valAt; rw [hf]; simp [hi]
+        by_cases hk : k' = step
+        · subst hk
+          simp [hv]
+        · simp [hk]
+      | some idx =>
+        rw [hi] at hh
+        simp only [] at hh
+        rw [ih _ hh, lookupH_fold]
+        have hv : ∀ q, valAt groups serial dflt step q = some (storedValue g idx q dflt) := by
+          intro q; unfold valAt; rw [hf]; simp [hi]
+        by_cases hk : k' = step
+        · subst hk
+          by_cases hp : p' ∈ params
+          · simp [hp, hv, hkey]
+          · simp [hp]
+        · have : ¬ k' = (g.cycle, g.node) := by rw [hkey]; exact hk
+          simp [hk, this]
+
+
+private theorem lookup_map_val {β} (t : List (Nat × β)) (p : Nat) (f : Nat × β → β) :
+    (t.map (fun e => (e.1, f e))).lookup p = (t.lookup p).map (fun d => f (p, d)) := by
+  induction t with
+  | nil => rfl
+  | cons e t ih =>
+    obtain ⟨ek, ev⟩ := e
+    by_cases he : ek = p
+    · subst he; simp [List.lookup_cons]
+    · have h2 : (p == ek) = false := by simpa using (fun h => he h.symm)
+      simp only [List.map_cons, List.lookup_cons, h2, ih]
+
+/-- the live step is only ever ADDED: every value the stored steps gave stays -/
+theorem addLive_keeps (st : PState) (dflt : Nat → Int) (serial : Nat) (h : Hist) (p : Nat) (k : Nat × Nat) (v : Int)
+    (hv : lookupH h p k = some v) : lookupH (addLive st dflt serial h) p k = some v := by
+  unfold lookupH at hv ⊢
+  unfold addLive
+  have e : (fun e : Nat × List ((Nat × Nat) × Int) =>
+        if e.2.any (fun x => x.1 == (st.cycle, st.node)) then e
+        else (e.1, e.2 ++ [((st.cycle, st.node), st.get dflt serial e.1)]))
+      = (fun e => (e.1, (fun e : Nat × List ((Nat × Nat) × Int) =>
+          if e.2.any (fun x => x.1 == (st.cycle, st.node)) then e.2
+          else e.2 ++ [((st.cycle, st.node), st.get dflt serial e.1)]) e)) := by
+    funext e; obtain ⟨a, b⟩ := e; simp only []; split <;> simp_all
+  rw [e, lookup_map_val]
+  cases hl : h.lookup p with
+  | none => rw [hl] at hv; simp at hv
+  | some d =>
+    rw [hl] at hv
+    simp only [Option.getD_some] at hv
+    simp only [Option.map_some, Option.getD_some]
+    split
+    · exact hv
+    · rw [List.lookup_append, hv]; rfl
+
+/-- **history over selected steps × parameters**: `Database.getHistory(obj, params, timeSteps)` holds, for every
+requested parameter and every requested step whose snapshot contains the object (found by serial number), the
+snapshot's value for that object — the dataset entry at its row, or THE DEFAULT when the snapshot has no dataset
+for the parameter -/
+theorem dbHistory_value (groups : List PSnap) (st : PState) (dflt : Nat → Int) (serial : Nat) (params : List Nat)
+    (steps : List (Nat × Nat)) (h : Hist) (hh : dbHistory groups st dflt serial params steps = some h)
+    (p : Nat) (hp : p ∈ params) (k : Nat × Nat) (hk : k ∈ steps) (v : Int)
+    (hv : valAt groups serial dflt k p = some v) :
+    lookupH h p k = some v := by
+  unfold dbHistory at hh
+  cases hl : histLoop groups serial params dflt steps [] with
+  | none => rw [hl] at hh; simp at hh
+  | some h0 =>
+    rw [hl] at hh
+    simp only [Option.map_some, Option.some.injEq] at hh
+    subst hh
+    apply addLive_keeps
+    rw [histLoop_lookup groups serial params dflt steps [] h0 hl]
+    simp [hp, hk, hv]
+
+/-- **the full history (`timeSteps=None`) holds every written step**: for every snapshot that contains the object and
+every requested parameter, the value stored there — or the default when that snapshot has no dataset for it -/
+theorem dbHistoryAll_value (groups : List PSnap) (st : PState) (dflt : Nat → Int) (serial : Nat) (params : List Nat)
+    (h : Hist) (hh : dbHistoryAll groups st dflt serial params = some h)
+    (p : Nat) (hp : p ∈ params) (g : PSnap) (hg : g ∈ groups) (v : Int)
+    (hv : valAt groups serial dflt (g.cycle, g.node) p = some v) :
+    lookupH h p (g.cycle, g.node) = some v := by
+  unfold dbHistoryAll at hh
+  refine dbHistory_value groups st dflt serial params _ h hh p hp _ ?_ v hv
+  unfold allSteps
+  rw [(isort_perm _ _).mem_iff]
+  exact List.mem_map.mpr ⟨g, hg, rfl⟩
+
+/-- every value of an object that was assigned belongs to a parameter whose class-level flag is set
+(the setter sets the flag first) -/
+def liveAssigned (st : PState) : Prop := ∀ e ∈ st.live, e.1.2 ∈ st.assigned
+
+theorem liveAssigned_assign (st : PState) (sn p : Nat) (v : Int) (h : liveAssigned st) : liveAssigned (st.assign sn p v) := by
+  intro e he
+  unfold PState.assign at he ⊢
+  simp only [List.mem_cons] at he
+  by_cases hc : st.assigned.contains p = true
+  · simp only [hc, if_true]
+    rcases he with rfl | he
+    · simpa using hc
+    · exact h e he
+  · simp only [hc, Bool.false_eq_true, if_false, List.mem_append, List.mem_singleton]
+    rcases he with rfl | he
+    · right; rfl
+    · left; exact h e he
+
+private theorem lookup_none_of_not_mem {α β} [BEq α] [LawfulBEq α] (l : List (α × β)) (a : α) (h : ∀ e ∈ l, e.1 ≠ a) :
+    l.lookup a = none := by
+  induction l with
+  | nil => rfl
+  | cons e t ih =>
+    obtain ⟨ek, ev⟩ := e
+    have h1 : (a == ek) = false := by
+      have := h (ek, ev) (by simp)
+      simpa using (fun hh : a = ek => this hh.symm)
+    simp only [List.lookup_cons, h1]
+    exact ih (fun e he => h e (by simp [he]))
+
+private theorem lookup_map_key (l : List Nat) (f : Nat → List Int) (q : Nat) :
+    (l.map (fun p => (p, f p))).lookup q = if q ∈ l then some (f q) else none := by
+  induction l with
+  | nil => rfl
+  | cons a t ih =>
+    by_cases h : q = a
+    · subst h; simp [List.lookup_cons]
+    · have h1 : (q == a) = false := by simpa using h
+      simp only [List.map_cons, List.lookup_cons, h1, ih, List.mem_cons, h, false_or]
+
+/-- **a snapshot records the value or the default whether or not a dataset exists**: for the snapshot `writeP`
+makes of state `st`, the value `getHistories` takes for the object in row `idx` and ANY parameter `p` — stored
+(class-level flag set) or not stored at all (flag never set) — is `c.p[p]` at the write: the value if the object
+had one, else the parameter's default -/
+theorem writeP_storedValue (st : PState) (dflt : Nat → Int) (layout : List Nat) (idx serial p : Nat)
+    (hinv : liveAssigned st) (hidx : layout[idx]? = some serial) :
+    storedValue (writeP st dflt layout) idx p dflt = st.get dflt serial p := by
+  unfold storedValue writeP
+  simp only []
+  rw [lookup_map_key]
+  by_cases hp : p ∈ st.assigned
+  · simp only [hp, if_true]
+    rw [List.getD_eq_getElem?_getD, List.getElem?_map, hidx]
+    rfl
+  · simp only [hp, if_false]
+    unfold PState.get
+    rw [lookup_none_of_not_mem]
+    · rfl
+    · intro e he hc
+      apply hp
+      have := hinv e he
+      rw [hc] at this
+      exact this
+
+theorem idxOf?_getElem (l : List Nat) (a i : Nat) (h : l.idxOf? a = some i) : l[i]? = some a := by
+  unfold List.idxOf? at h
+  have := List.of_findIdx?_eq_some h
+  cases hl : l[i]? with
+  | none => rw [hl] at this; simp at this
+  | some b => rw [hl] at this; simp at this; rw [this]
+
+
+/-- `DatabaseInterface.getHistory`: the current step, when requested, carries the live value of every requested parameter -/
+theorem dbiHistory_now (groups : List PSnap) (st : PState) (dflt : Nat → Int) (serial : Nat) (params : List Nat)
+    (steps : List (Nat × Nat)) (h : Hist) (hh : dbiHistory groups st dflt serial params steps = some h)
+    (hnow : (st.cycle, st.node) ∈ steps) (p : Nat) (hp : p ∈ params) :
+    lookupH h p (st.cycle, st.node) = some (st.get dflt serial p) := by
+  unfold dbiHistory at hh
+  have hc : steps.contains (st.cycle, st.node) = true := by simpa using hnow
+  simp only [hc, if_true] at hh
+  cases hd : dbHistory groups st dflt serial params (steps.erase (st.cycle, st.node)) with
+  | none => rw [hd] at hh; simp at hh
+  | some h0 =>
+    rw [hd] at hh
+    simp only [Option.map_some, Option.some.injEq] at hh
+    subst hh
+    rw [lookupH_fold]
+    simp [hp]
+
+/-- … and every other requested step carries the snapshot's value or the default, as for `Database.getHistory` -/
+theorem dbiHistory_past (groups : List PSnap) (st : PState) (dflt : Nat → Int) (serial : Nat) (params : List Nat)
+    (steps : List (Nat × Nat)) (h : Hist) (hh : dbiHistory groups st dflt serial params steps = some h)
+    (p : Nat) (hp : p ∈ params) (k : Nat × Nat) (hk : k ∈ steps) (hne : k ≠ (st.cycle, st.node)) (v : Int)
+    (hv : valAt groups serial dflt k p = some v) :
+    lookupH h p k = some v := by
+  unfold dbiHistory at hh
+  by_cases hc : steps.contains (st.cycle, st.node) = true
+  · simp only [hc, if_true] at hh
+    cases hd : dbHistory groups st dflt serial params (steps.erase (st.cycle, st.node)) with
+    | none => rw [hd] at hh; simp at hh
+    | some h0 =>
+      rw [hd] at hh
+      simp only [Option.map_some, Option.some.injEq] at hh
+      subst hh
+      rw [lookupH_fold]
+      simp only [hne, and_false, if_false]
+      exact dbHistory_value groups st dflt serial params _ h0 hd p hp k ((List.mem_erase_of_ne hne).mpr hk) v hv
+  · simp only [hc, Bool.false_eq_true, if_false] at hh
+    exact dbHistory_value groups st dflt serial params steps h hh p hp k hk v hv
+
+/-- `getBlockHistoryVal` for a written step: the snapshot's value or the default -/
+theorem blockHistoryVal_written (groups : List PSnap) (st : PState) (dflt : Nat → Int) (serial p : Nat) (ts : Nat × Nat)
+    (v : Int) (hv : valAt groups serial dflt ts p = some v) :
+    blockHistoryVal groups st dflt serial p ts = some v := by
+  unfold blockHistoryVal
+  have hany : groups.any (fun g => (g.cycle, g.node) == ts) = true := by
+    unfold valAt at hv
+    cases hf : groups.find? (fun g => (g.cycle, g.node) == ts) with
+    | none => rw [hf] at hv; simp at hv
+    | some g =>
+      rw [List.any_eq_true]
+      exact ⟨g, List.mem_of_find?_eq_some hf, by simpa using List.find?_some hf⟩
+  simp only [hany, Bool.not_true, Bool.and_false, Bool.false_eq_true, if_false]
+  cases hd : dbHistory groups st dflt serial [p] [ts] with
+  | none =>
+    exfalso
+    unfold dbHistory at hd
+    unfold valAt at hv
+    cases hf : groups.find? (fun g => (g.cycle, g.node) == ts) with
+    | none => rw [hf] at hv; simp at hv
+    | some g =>
+      rw [hf] at hv
+      simp only [] at hv
+      cases hi : g.layout.idxOf? serial with
+      | none => rw [hi] at hv; simp at hv
+      | some idx => simp [histLoop, hf, hi] at hd
+  | some h =>
+    simp only []
+    exact dbHistory_value groups st dflt serial [p] [ts] h hd p (by simp) ts (by simp) v hv
+
+/-! ### every reachable history -/
+
+inductive POp
+  | assign (sn p : Nat) (v : Int)      -- `obj.p[param] = v`
+  | time (c n : Nat)                   -- `r.p.cycle, r.p.timeNode = c, n`
+  | write (layout : List Nat)          -- `writeToDB(r)` (refused when the step is already written)
+
+/-- process state, snapshots, and a ghost log of (layout, process state) at every accepted write -/
+structure PRun where
+  st : PState
+  groups : List PSnap
+  log : List (List Nat × PState)
+
+def PRun.init : PRun := ⟨⟨[], [], 0, 0⟩, [], []⟩
+
+def PRun.step (dflt : Nat → Int) (r : PRun) : POp → PRun
+  | .assign sn p v => { r with st := r.st.assign sn p v }
+  | .time c n => { r with st := { r.st with cycle := c, node := n } }
+  | .write layout =>
+    if r.groups.any (fun g => (g.cycle, g.node) == (r.st.cycle, r.st.node)) then r
+    else { r with groups := r.groups ++ [writeP r.st dflt layout], log := r.log ++ [(layout, r.st)] }
+
+def PRun.Inv (dflt : Nat → Int) (r : PRun) : Prop :=
+  liveAssigned r.st ∧ r.groups = r.log.map (fun e => writeP e.2 dflt e.1) ∧ (∀ e ∈ r.log, liveAssigned e.2)
+    ∧ (r.groups.map (fun g => (g.cycle, g.node))).Nodup
+
+theorem PRun.inv_init (dflt : Nat → Int) : PRun.Inv dflt PRun.init := by
+  refine ⟨?_, rfl, ?_, ?_⟩ <;> simp [PRun.init, liveAssigned]
+
+theorem PRun.inv_step (dflt : Nat → Int) (r : PRun) (op : POp) (h : PRun.Inv dflt r) : PRun.Inv dflt (r.step dflt op) := by
+  obtain ⟨h1, h2, h3, h4⟩ := h
+  cases op with
+  | assign sn p v => exact ⟨liveAssigned_assign _ _ _ _ h1, h2, h3, h4⟩
+  | time c n => exact ⟨h1, h2, h3, h4⟩
+  | write layout =>
+    unfold PRun.step
+    simp only []
+    split
+    · exact ⟨h1, h2, h3, h4⟩
+    · next hany =>
+      refine ⟨h1, ?_, ?_, ?_⟩
+      · simp [h2]
+      · intro e he
+        simp only [List.mem_append, List.mem_singleton] at he
+        rcases he with he | rfl
+        · exact h3 e he
+        · exact h1
+      · simp only [List.map_append, List.map_cons, List.map_nil]
+        rw [List.nodup_append]
+        refine ⟨h4, by simp, ?_⟩
+        intro a ha b hb
+        simp only [List.mem_singleton] at hb
+        subst hb
+        simp only [List.mem_map] at ha
+        obtain ⟨g, hg, rfl⟩ := ha
+        intro hc
+        apply hany
+        rw [List.any_eq_true]
+        refine ⟨g, hg, ?_⟩
+        simp only [writeP] at hc
+        simpa using hc
+
+theorem PRun.inv_run (dflt : Nat → Int) (ops : List POp) : PRun.Inv dflt (ops.foldl (PRun.step dflt) PRun.init) := by
+  suffices ∀ r, PRun.Inv dflt r → PRun.Inv dflt (ops.foldl (PRun.step dflt) r) from this _ (PRun.inv_init dflt)
+  induction ops with
+  | nil => intro r h; exact h
+  | cons op rest ih => intro r h; exact ih _ (PRun.inv_step dflt r op h)
+
+private theorem find?_of_nodup_keys (l : List PSnap) (g : PSnap) (hg : g ∈ l)
+    (hn : (l.map (fun g => (g.cycle, g.node))).Nodup) :
+    l.find? (fun x => (x.cycle, x.node) == (g.cycle, g.node)) = some g := by
+  induction l with
+  | nil => simp at hg
+  | cons a t ih =>
+    simp only [List.map_cons, List.nodup_cons] at hn
+    rcases List.mem_cons.mp hg with rfl | hg'
+    · simp
+    · have hne : ¬ ((a.cycle, a.node) = (g.cycle, g.node)) := by
+        intro hc
+        apply hn.1
+        rw [hc]
+        exact List.mem_map.mpr ⟨g, hg', rfl⟩
+      have : ((a.cycle, a.node) == (g.cycle, g.node)) = false := by simpa using hne
+      rw [List.find?_cons, this]
+      exact ih hg' hn.2
+
+/-- **C06 history clause over all histories, parameters becoming assigned at any time**: after ANY sequence of
+assignments, clock changes and writes, for every accepted write (process state `st'`, layout `L`), every object
+in that layout, every requested parameter — whether or not anybody had assigned it when that snapshot was
+written — `Database.getHistory` over any selection of steps that includes that step reports for it exactly
+what the object had at the write: its value, or the parameter's default if unset -/
+theorem history_value_or_default (dflt : Nat → Int) (ops : List POp) (L : List Nat) (st' : PState)
+    (hlog : (L, st') ∈ (ops.foldl (PRun.step dflt) PRun.init).log)
+    (serial idx : Nat) (hidx : L.idxOf? serial = some idx)
+    (params : List Nat) (p : Nat) (hp : p ∈ params)
+    (steps : List (Nat × Nat)) (hk : (st'.cycle, st'.node) ∈ steps) (h : Hist)
+    (hh : dbHistory (ops.foldl (PRun.step dflt) PRun.init).groups (ops.foldl (PRun.step dflt) PRun.init).st
+            dflt serial params steps = some h) :
+    lookupH h p (st'.cycle, st'.node) = some (st'.get dflt serial p) := by
+  obtain ⟨_, h2, h3, h4⟩ := PRun.inv_run dflt ops
+  apply dbHistory_value _ _ _ _ _ _ _ hh p hp _ hk
+  have hg : writeP st' dflt L ∈ (ops.foldl (PRun.step dflt) PRun.init).groups := by
+    rw [h2]; exact List.mem_map.mpr ⟨(L, st'), hlog, rfl⟩
+  have hf := find?_of_nodup_keys _ _ hg h4
+  unfold valAt
+  have e : ((writeP st' dflt L).cycle, (writeP st' dflt L).node) = (st'.cycle, st'.node) := rfl
+  rw [e] at hf
+  rw [hf]
+  have e2 : (writeP st' dflt L).layout = L := rfl
+  simp only [e2, hidx, Option.map_some]
+  rw [writeP_storedValue st' dflt L idx serial p (h3 _ hlog) (idxOf?_getElem L serial idx hidx)]
+
+/-- non-vacuity: parameter 2 (default -1) is first assigned after step (0,0) was written; the history over both steps
+still has step (0,0), with the default -/
+example :
+    let r := [POp.assign 5 1 3, .write [4, 5], .time 0 1, .assign 4 2 9, .write [5, 4]].foldl
+      (PRun.step (fun p => if p = 2 then -1 else 7)) PRun.init
+    ((r.groups.map (fun g => g.data.map (·.1))) = [[1], [1, 2]]) ∧
+    dbHistory r.groups r.st (fun p => if p = 2 then -1 else 7) 4 [2, 1] [(0, 1), (0, 0)]
+      = some [(2, [((0, 1), 9), ((0, 0), -1)]), (1, [((0, 1), 7), ((0, 0), 7)])] := by decide
+
 /-! ## Merging and splitting -/
 
 /-- is the group's (cycle, node) before the restart point? -/
@@ -614,13 +1089,13 @@ private theorem fold_open (d : DbCfg) (l : List (Event × Nat)) (s : Store) (ho 
 private theorem fold_none (d : DbCfg) (l : List (Event × Nat)) :
     l.foldl (dbStep d) none =
       if l.all (fun ie => !opens d ie.1) then none
-      else (afterOpen d l).foldl (dbStep d) (some openW) := by
+      else (afterOpen d l).foldl (dbStep d) (some d.opened) := by
   induction l with
   | nil => simp
   | cons ie rest ih =>
     simp only [List.foldl_cons]
     by_cases ho : opens d ie.1 = true
-    · have : dbStep d none ie = some openW := by
+    · have : dbStep d none ie = some d.opened := by
         unfold opens at ho
         simp only [Bool.or_eq_true] at ho
         unfold dbStep
@@ -646,11 +1121,11 @@ private theorem fold_none (d : DbCfg) (l : List (Event × Nat)) :
 
 /-- **the database after any number of completed hook calls, between opening and finalisation**:
 open, still in the fast path, unsuccessful, holding exactly the node snapshots written so far -/
-theorem db_between (d : DbCfg) (n : Nat)
+theorem db_between (d : DbCfg) (n : Nat) (hopen : d.opened.isOpen = true)
     (hopened : (((run d.cfg).take n).zipIdx).all (fun ie => !opens d ie.1) = false)
     (hnotfinal : ∀ ie ∈ ((run d.cfg).take n).zipIdx, isFinalEvent d ie.1 = false) :
-    dbAfter d n = some { openW with
-      groups := (afterOpen d (((run d.cfg).take n).zipIdx)).filterMap (nodeWrite d) } := by
+    dbAfter d n = some { d.opened with
+      groups := d.opened.groups ++ (afterOpen d (((run d.cfg).take n).zipIdx)).filterMap (nodeWrite d) } := by
   unfold dbAfter
   rw [fold_none, hopened]
   simp only [Bool.false_eq_true, if_false]
@@ -659,8 +1134,7 @@ theorem db_between (d : DbCfg) (n : Nat)
     apply hnotfinal
     unfold afterOpen at hie
     exact (List.dropWhile_sublist _).subset (List.mem_of_mem_tail hie)
-  rw [fold_open d _ openW rfl hsub]
-  simp [openW]
+  rw [fold_open d _ d.opened hopen hsub]
 
 private theorem nodeWrites_fresh (d : DbCfg) (l : List (Event × Nat)) (c n : Nat) :
     (l.filterMap (nodeWrite d)).any (fun g => name g.1 == name ⟨c, n, errorLabel⟩) = false := by
@@ -683,16 +1157,22 @@ that leaves `with o:` (ordinary exceptions, `SystemExit`, `KeyboardInterrupt`), 
 crash path; the tie injects all three kinds.  No freshness hypothesis: node snapshots have an empty label, whose names end in a
 digit, so the `error` snapshot never collides with one (`name_fresh`, for all numbers). -/
 theorem crash_file_spec (d : DbCfg) (n : Nat) (e : Event) (he : (run d.cfg)[n]? = some e)
+    (hopen : d.opened.isOpen = true) (hfresh : hasKey d.opened ⟨e.rc, e.rn, errorLabel⟩ = false)
     (hopened : (((run d.cfg).take n).zipIdx).all (fun ie => !opens d ie.1) = false)
     (hnotfinal : ∀ ie ∈ ((run d.cfg).take n).zipIdx, isFinalEvent d ie.1 = false) :
     fileAfterCrash d n = some {
-      groups := (afterOpen d (((run d.cfg).take n).zipIdx)).filterMap (nodeWrite d)
+      groups := d.opened.groups ++ (afterOpen d (((run d.cfg).take n).zipIdx)).filterMap (nodeWrite d)
         ++ [(⟨e.rc, e.rn, errorLabel⟩, { cycle := e.rc, node := e.rn, objs := d.stateAt n })],
       success := false, inWork := true, isOpen := false } := by
   unfold fileAfterCrash
-  rw [he, db_between d n hopened hnotfinal]
+  rw [he, db_between d n hopen hopened hnotfinal]
   have hf := nodeWrites_fresh d (afterOpen d (((run d.cfg).take n).zipIdx)) e.rc e.rn
-  simp [interactError, write, hasKey, hf, close, openW]
+  unfold hasKey at hfresh
+  simp [interactError, write, hasKey, hf, hfresh, hopen, close]
+
+/-- the two extra hypotheses of `crash_file_spec` hold for a fresh (not restarted) run -/
+theorem opened_fresh (d : DbCfg) (hd : d.opened = openW) (k : Key) : d.opened.isOpen = true ∧ hasKey d.opened k = false := by
+  rw [hd]; simp [openW, hasKey]
 
 /-- a failure before anything opened the database leaves no file -/
 theorem crash_before_open (d : DbCfg) (n : Nat)
@@ -740,13 +1220,13 @@ private theorem step_final (d : DbCfg) (s : Store) (fin : Event × Nat) (ho : s.
 opened within `pre`, `fin` is the database interface's end-of-life call and no earlier call is, then
 the finished file is in the working directory, closed, marked successful, and holds exactly every node
 snapshot written after the opening plus the `EOL` snapshot — whatever runs after it. -/
-theorem complete_run_spec (d : DbCfg) (pre post : List (Event × Nat)) (fin : Event × Nat)
+theorem complete_run_spec (d : DbCfg) (pre post : List (Event × Nat)) (fin : Event × Nat) (hopen : d.opened.isOpen = true)
     (hsplit : (run d.cfg).zipIdx = pre ++ fin :: post)
     (hopened : pre.all (fun ie => !opens d ie.1) = false)
     (hpre : ∀ ie ∈ pre, isFinalEvent d ie.1 = false)
     (hfin : isFinalEvent d fin.1 = true) (hnw : isNodeWrite d fin.1 = false) :
     fileAfterRun d = some {
-      groups := (afterOpen d pre).filterMap (nodeWrite d)
+      groups := d.opened.groups ++ (afterOpen d pre).filterMap (nodeWrite d)
         ++ [(⟨fin.1.rc, fin.1.rn, eolLabel⟩, { cycle := fin.1.rc, node := fin.1.rn, objs := d.stateAt fin.2 })],
       success := true, inWork := true, isOpen := false } := by
   unfold fileAfterRun dbAfter
@@ -757,10 +1237,38 @@ theorem complete_run_spec (d : DbCfg) (pre post : List (Event × Nat)) (fin : Ev
     apply hpre
     unfold afterOpen at hie
     exact (List.dropWhile_sublist _).subset (List.mem_of_mem_tail hie)
-  rw [fold_open d _ openW rfl hsub, step_final d _ fin rfl hfin hnw, fold_closed _ _ _ rfl]
-  simp [openW]
+  rw [fold_open d _ d.opened hopen hsub]
+  have hs := step_final d { d.opened with groups := d.opened.groups ++ (afterOpen d pre).filterMap (nodeWrite d) } fin
+    hopen hfin hnw
+  rw [hs, fold_closed _ _ _ rfl]
 
 example : ((fileAfterRun exDb).map (fun s => (s.groups.map (fun g => (g.1.cycle, g.1.node, g.1.label)), s.success, s.inWork, s.isOpen)))
     = some ([(0, 0, []), (0, 1, []), (0, 1, eolLabel)], true, true, false) := by decide
+
+/-- `prepRestartRun` on a fresh database: exactly the steps of the reload database that lie before the restart
+point, unchanged, in chronological order; open, not yet successful -/
+theorem restartStore_spec (src : Store) (sc sn : Nat) (hs : smallKeys src) (hn : namesNodup src) :
+    restartStore src sc sn = { openW with groups := (sortedGroups src).filter (before sc sn) } := by
+  unfold restartStore
+  rw [merge_exact src sc sn hs hn]
+  rfl
+
+/-- **restart_run_spec**: a run restarted at (sc, sn) from the database `src` of an earlier run (main opens the
+database and merges the history) that completes leaves a file — in the working directory, closed, marked
+successful — that holds exactly the steps of `src` before the restart point, unchanged, then every node snapshot
+the new run wrote, then the `EOL` snapshot -/
+theorem restart_run_spec (d : DbCfg) (src : Store) (sc sn : Nat) (hs : smallKeys src) (hn : namesNodup src)
+    (hd : d.opened = restartStore src sc sn)
+    (pre post : List (Event × Nat)) (fin : Event × Nat)
+    (hsplit : (run d.cfg).zipIdx = pre ++ fin :: post)
+    (hopened : pre.all (fun ie => !opens d ie.1) = false)
+    (hpre : ∀ ie ∈ pre, isFinalEvent d ie.1 = false)
+    (hfin : isFinalEvent d fin.1 = true) (hnw : isNodeWrite d fin.1 = false) :
+    fileAfterRun d = some {
+      groups := (sortedGroups src).filter (before sc sn) ++ (afterOpen d pre).filterMap (nodeWrite d)
+        ++ [(⟨fin.1.rc, fin.1.rn, eolLabel⟩, { cycle := fin.1.rc, node := fin.1.rn, objs := d.stateAt fin.2 })],
+      success := true, inWork := true, isOpen := false } := by
+  have ho : d.opened.isOpen = true := by rw [hd, restartStore_spec src sc sn hs hn]; rfl
+  rw [complete_run_spec d pre post fin ho hsplit hopened hpre hfin hnw, hd, restartStore_spec src sc sn hs hn]
 
 end ArmiVerif.SnapStore
